@@ -118,6 +118,14 @@ Definition pick {A} (parent : octx) (root rs rns ls lns : A) : A :=
   | 1 => rs | 2 => rns | 3 => ls | 4 => lns | _ => root
   end.
 
+(** Options of ParentBased: each names a delegate (1..4) and a sampler; for every delegate the LAST
+    option naming it counts, whatever else stands between; a delegate no option names keeps its default. *)
+Definition effective {A} (k : N) (opts : list (N * A)) (dflt : A) : A :=
+  match find (fun o => fst o =? k) (rev opts) with
+  | Some o => snd o
+  | None => dflt
+  end.
+
 (** The default parent-based sampler gives a child the decision of its parent. *)
 Definition default_parent_decision (parent : octx) : option N :=
   if negb (zero (o_tid parent)) && negb (zero (o_sid parent))
